@@ -237,7 +237,10 @@ def genLeaf (ctx : GenCtx) (id : Nat) (l : Leaf) (r : Rng) : Option (Val × Rng)
   match l with
   | .int k _ =>
       let bound := 256 ^ k
-      if ctx.lens.contains id then
+      if ctx.lens.contains id && ctx.maxLen ≥ 1000 then
+        -- exact mode: `maxLen = 1000 + L` asks for arrays of exactly L elements (as far as the count field can say so)
+        some (.nat (min (bound - 1) (ctx.maxLen - 1000)), r)
+      else if ctx.lens.contains id then
         let (c, r) := r.below 8
         let (n, r) := if c == 0 then r.below (min bound 40) else r.below (min bound (ctx.maxLen + 1))
         some (.nat n, r)
@@ -326,7 +329,7 @@ partial def genTy (ctx : GenCtx) (id : Nat) (t : Ty) (env : Env) (r : Rng) : Opt
   match t with
   | .leaf l => genLeaf ctx id l r
   | .struct ms =>
-      let ctx' : GenCtx := { lens := lenVars ms, conds := condVals ms, maxLen := ctx.maxLen }
+      let ctx' : GenCtx := { lens := lenVars ms, conds := condVals ms, maxLen := if ctx.maxLen ≥ 1000 then 2 else ctx.maxLen }
       (genMembers ctx' ms [] r).map fun (vs, _, r) => (.tuple vs, r)
   | .arrFixed n t => (genList ctx id t env n r).map fun (vs, r) => (.list vs, r)
   | .arrVar v t => match env.get v with
